@@ -396,8 +396,32 @@ def _share_layout(chk):
     chk.guard('C10.L', check_layout_sim, chk)
 
 
+def check_programs(chk, rule='C01.P', report_known=True):
+    """E9r: parse_script + execute_script evaluated on whole concrete programs against the structured (big-step) reading of the source -> True when every program agrees"""
+    from ..progsim import run_programs
+    n, problems, known = run_programs(chk.repo, chk.tier, rule)
+    pmod = chk.repo.module('parser')
+    rmod = chk.repo.module('runtime')
+    if known and report_known:
+        chk.bad('C01.W', pmod, 'parse_script', 'while: continue -> re-test the condition', known[0][1][:600] + f' ({len(known)} runs)')
+    seen = set()
+    for desc, text, gdesc, msg in problems:
+        if desc in seen or len(seen) >= 3:
+            continue
+        seen.add(desc)
+        chk.bad(rule, rmod, 'parse_script + execute_script', f'program: {desc}', f'whole-program evaluation, program "{desc}" with the initial global g {gdesc}: the run {msg} '
+                f'({len(problems)} of {n} runs deviate)', detail={'program': text, 'g': gdesc})
+    if not problems:
+        chk.ok(rule, f'{n} runs of hand-written and grammar-generated structured programs (empty bodies, every construct nested to depth 5, up to 3 functions, break / continue / return at every '
+               f'level, initial globals of every plain value type): return value, log sequence and final globals equal the structured reading'
+               + (f'; {len(known)} runs differ only by the known while/continue finding' if known else ''), count=n)
+    return not problems
+
+
 def run(chk):
     _share_layout(chk)
+    chk.rule('C01.P', 'whole programs: parse_script + execute_script (evaluated, E9r) give the return value, logs and final globals of the structured big-step reading of the source', floor=150)
+    programs_ok = chk.guard('C01.P', check_programs, chk)
     chk.rule('C01.flow', 'bisimulation of the lowered statement list with the structured reading + for-loop data rules, per shape and scope', floor=300)
     chk.rule('C01.W', 'while: body only after a true test; condition re-tested before every iteration and after continue; break/false leave the loop')
     chk.rule('C01.I', 'if chain: conditions tested in order; exactly the first true branch runs; else iff all false')
@@ -420,7 +444,11 @@ def run(chk):
     chk.extra['distinct_statement_lists'] = len(seen)
     chk.extra['shape_time_s'] = round(time.time() - t0, 2)
     chk.guard('C01.B', check_error_shapes, chk, pm)
-    chk.guard('C01.S', check_stack_discipline, chk, pm)
+    if programs_ok:
+        chk.advisory('C01.S', check_stack_discipline, chk, pm)
+        chk.floors.pop('C01.S', None)
+    else:
+        chk.guard('C01.S', check_stack_discipline, chk, pm)
     # the runtime half of "parse_script followed by execute_script": jump-level semantics (C08) and assignment scope / frames (C04)
     from . import c08, c04
     for r, d in (('C08.PC', 'shared with C08: program counter discipline'), ('C08.L', 'shared with C08: label lookup'), ('C08.J', 'shared with C08: conditional jump by value_boolean'),
